@@ -44,7 +44,10 @@ RULE = ("cases = (a) module lists (the names ssh.connect packages plus extra and
         "over the posix socket transport and the win32 pipe transport (real SocketRWShim threads, child stdin accepting "
         "1 / 1000 / 4096 bytes per write, whole writes as control); module sources of 0, 1, 64 KiB +-1, 1 MiB +-1 and "
         "several MiB, highly compressible and incompressible, each required to arrive byte for byte with the later "
-        "modules and the options intact; several sessions opened by one process (the same "
+        "modules and the options intact; client verbosity is a dimension of every case (level from the rotation "
+        "0,0,3,0,2,0,3,1 shifted by the seed, stored in the replay): the one-liner the real ssh.connect builds at that "
+        "level is the program the remote side executes, over segmented (in the child interpreter also delayed) delivery; "
+        "several sessions opened by one process (the same "
         "options twice, different options, both transports), each upload decoded on its own; "
         "non-trivial = a read crossed a segment boundary, an error branch was taken, or a trace was decided; "
         "distinct = distinct canonical model input")
@@ -108,12 +111,57 @@ def sum_of(b):
     return '%d:%d' % (len(b), fnv_fast(b))
 
 
+# Client verbosity is a dimension of every case: the level comes from this rotation shifted by the check's
+# seed (over seeds 0..7 every directed case runs at every level), is stored in the case and restored by --replay.
+# What arrives on the remote side must not depend on it.
+LEVEL_ROTATION = [0, 0, 3, 0, 2, 0, 3, 1]
+_LEVEL = {'cur': 0, 'i': 0, 'shift': 0}
+
+
+def next_level():
+    _LEVEL['i'] += 1
+    lv = LEVEL_ROTATION[(_LEVEL['i'] + _LEVEL['shift']) % len(LEVEL_ROTATION)]
+    _LEVEL.setdefault('hist', {})
+    _LEVEL['hist'][lv] = _LEVEL['hist'].get(lv, 0) + 1
+    return lv
+
+
+class at_level:
+    """sshuttle.helpers.verbose = level and a silent sys.stderr around calls into the real code"""
+
+    def __init__(self, level):
+        self.level = int(level or 0)
+
+    def __enter__(self):
+        import sshuttle.helpers as helpers
+        self.prev = (_LEVEL['cur'], helpers.verbose, sys.stderr)
+        _LEVEL['cur'] = self.level
+        helpers.verbose = self.level
+        sys.stderr = io.StringIO()
+        return self
+
+    def __exit__(self, *exc):
+        import sshuttle.helpers as helpers
+        _LEVEL['cur'], helpers.verbose, sys.stderr = self.prev
+        return False
+
+
+def leveled(fn):
+    """run `fn(case, ...)` at the verbosity level stored in the case"""
+    def wrapper(case, *a, **k):
+        with at_level(case.get('level', 0) if isinstance(case, dict) else 0):
+            return fn(case, *a, **k)
+    wrapper.__name__ = fn.__name__
+    wrapper.__doc__ = fn.__doc__
+    return wrapper
+
+
 def _mods():
     import sshuttle.ssh as ssh
     import sshuttle.ssnet as ssnet
     import sshuttle.client as client
     import sshuttle.helpers as helpers
-    helpers.verbose = 0
+    helpers.verbose = _LEVEL['cur']
     return ssh, ssnet, client, helpers
 
 
@@ -230,16 +278,42 @@ class Blocker:
         return None
 
 
-def remote_run(stream, nasm, size_fn, bufsize, code_names, preloaded=()):
-    """The bootstrap one-liner and the real assembler source, on `stream`.
+_PYSCRIPT = {}
+
+
+def pyscript_at_level():
+    """The `python -c` program the real ssh.connect builds at the current verbosity level (for the streams that
+    do not come out of a connect call of their own); None if connect cannot be made to produce one."""
+    key = (common.REPO, _LEVEL['cur'])
+    if key not in _PYSCRIPT:
+        ps = None
+        try:
+            obs = run_connect(dict(files={}, options=[('latency_control', True)], level=_LEVEL['cur']), None)
+            if obs['popen'] and len(obs['popen'][0]) == 3 and obs['popen'][0][1] == '-c':
+                ps = obs['popen'][0][2]
+        except Exception:  # noqa
+            ps = None
+        _PYSCRIPT[key] = ps
+    return _PYSCRIPT[key]
+
+
+def remote_run(stream, nasm, size_fn, bufsize, code_names, preloaded=(), pyscript=None):
+    """The remote interpreter on `stream`: the bootstrap one-liner and the real assembler source.  With
+    `pyscript` (the `-c` program the real ssh.connect handed to Popen) that very program is executed, with
+    `os.fdopen(0, ...)` answering with a reader over the scripted descriptor - unbuffered if the program asks
+    for buffering 0, buffered otherwise; without it the stock one-liner is emulated.
     Returns dict(asm, compiled, main_args, end, rest, segs, dlog)."""
     raw = ScriptedRaw(stream, size_fn)
-    stdin = io.BufferedReader(raw, buffer_size=bufsize)
+    holder = {}
     compiled = []
     sink = []
     dlog = []
+    asm_seen = []
 
     def compile_shim(content, name, mode, *a, **k):
+        if name == 'assembler.py' and pyscript is not None and not asm_seen:
+            asm_seen.append(bytes(content))
+            return builtins.compile(content, name, mode)
         compiled.append((name, bytes(content)))
         if name in code_names:
             try:
@@ -247,6 +321,18 @@ def remote_run(stream, nasm, size_fn, bufsize, code_names, preloaded=()):
             except (SyntaxError, ValueError):
                 pass
         return builtins.compile(b'', name, mode)
+
+    real_fdopen = os.fdopen
+
+    def fake_fdopen(fd, mode='r', buffering=-1, *a, **k):
+        if fd != 0:
+            return real_fdopen(fd, mode, buffering, *a, **k)
+        if buffering == 0:
+            f = raw                         # raw file: read(n) is ONE read of at most n bytes
+        else:
+            f = io.BufferedReader(raw, buffer_size=buffering if buffering and buffering > 1 else bufsize)
+        holder['stdin'] = f
+        return f
 
     zshim = types.ModuleType('zlib')
     zshim.decompressobj = lambda *a: RecD(dlog)
@@ -256,7 +342,10 @@ def remote_run(stream, nasm, size_fn, bufsize, code_names, preloaded=()):
     old_err, old_out = sys.stderr, sys.stdout
     end = 'done'
     imports = 1
-    asm = stdin.read(nasm)        # stdin.read(%d) of the one-liner
+    asm = b''
+    if pyscript is None:
+        holder['stdin'] = io.BufferedReader(raw, buffer_size=bufsize)
+        asm = holder['stdin'].read(nasm)        # stdin.read(%d) of the stock one-liner
     try:
         for k in list(sys.modules):
             if k == 'sshuttle' or k.startswith('sshuttle.'):
@@ -266,20 +355,28 @@ def remote_run(stream, nasm, size_fn, bufsize, code_names, preloaded=()):
         sys.modules['zlib'] = zshim
         sys.meta_path.insert(0, blocker)
         sys.stderr, sys.stdout = io.StringIO(), io.StringIO()
-        ns = {'stdin': stdin, 'verbosity': 0, 'compile': compile_shim, '__c18_sink__': sink,
-              '__name__': '__c18_remote__'}
+        os.fdopen = fake_fdopen
+        ns = {'compile': compile_shim, '__c18_sink__': sink, '__name__': '__c18_remote__'}
         try:
-            code = builtins.compile(asm, 'assembler.py', 'exec')
+            if pyscript is None:
+                ns.update(stdin=holder['stdin'], verbosity=0)
+                code = builtins.compile(asm, 'assembler.py', 'exec')
+            else:
+                code = builtins.compile(pyscript, '<python -c>', 'exec')
         except (SyntaxError, ValueError):
             end = 'asmBroken'
             code = None
         if code is not None:
             try:
                 exec(code, ns)
+            except SystemExit:
+                pass                         # sys.exit(98): main() returned
             except UnicodeDecodeError:
                 end = 'nameNotAscii'
+            except SyntaxError:
+                end = 'asmBroken'
             except ValueError:
-                end = 'valueError'
+                end = 'valueError' if (pyscript is None or asm_seen) else 'asmBroken'
             except zlib.error:
                 end = 'zlibError'
             except KeyError:
@@ -292,6 +389,7 @@ def remote_run(stream, nasm, size_fn, bufsize, code_names, preloaded=()):
             except Exception as e:  # noqa  (a corrupted assembler source can do anything)
                 end = 'crashed:' + type(e).__name__
     finally:
+        os.fdopen = real_fdopen
         sys.stderr, sys.stdout = old_err, old_out
         if blocker in sys.meta_path:
             sys.meta_path.remove(blocker)
@@ -299,8 +397,13 @@ def remote_run(stream, nasm, size_fn, bufsize, code_names, preloaded=()):
             if k not in saved:
                 del sys.modules[k]
         sys.modules.update(saved)
-    rest = stdin.read()
-    return dict(asm=asm, compiled=compiled, main_args=sink, end=end, imports=imports, rest=rest,
+    if pyscript is not None:
+        asm = asm_seen[0] if asm_seen else b''
+    try:
+        rest = holder['stdin'].read() if 'stdin' in holder else raw.read()
+    except (ValueError, OSError):
+        rest = b''
+    return dict(asm=asm, compiled=compiled, main_args=sink, end=end, imports=imports, rest=rest or b'',
                 segs=list(raw.segs), dlog=dlog)
 
 
@@ -527,6 +630,7 @@ def independent_parse(upload, nasm):
     return asm, mods, upload[p:]
 
 
+@leveled
 def run_e2e(case, scratch, rng_sizes=None):
     """case: dict(modules=[[name, data(bytes), via]], options=[[k, v]], policy, bufsize, junk(bytes), pre=[...]).
     Runs the real packaging and the real assembler.  Returns (observation dict)."""
@@ -572,7 +676,7 @@ def run_e2e(case, scratch, rng_sizes=None):
     if policy in ('one', 2, 7) and len(stream) > 20000:
         policy = 4096       # the list-based model re-copies its buffer per raw read: keep long streams coarse
     obs['remote'] = remote_run(stream, len(content), size_policy(rs, policy), case['bufsize'],
-                               code_names, case.get('pre', ()))
+                               code_names, case.get('pre', ()), pyscript=pyscript_at_level())
     return obs
 
 
@@ -692,7 +796,7 @@ def e2e_case(ctx, rng, scratch, names, keys, thorough_big=False):
             ctx.hist('source:' + (k if mods[-1][2] == 'file' else 'explicit-data'))
     junk = rng.choice([b'', b'', b'\n', b'SS\x00\x00\x42\x01\x00\x07chicken', bytes(rng.randrange(256) for _ in range(9))])
     return dict(modules=mods, options=opts, policy=rng.choice(POLICIES), bufsize=rng.choice([1, 7, 512, 8192, 8192, 1 << 17]),
-                junk=junk, pre=pre, size_seed=rng.randrange(1 << 30))
+                junk=junk, pre=pre, size_seed=rng.randrange(1 << 30), level=next_level())
 
 
 def e2e_lines(case, obs, log):
@@ -723,25 +827,25 @@ def e2e_lines(case, obs, log):
 
 # ---------------------------------------------------------------- get_module_source alone
 
-def src_case(ctx, scratch, data, log):
-    ssh = _mods()[0]
+def src_case(ctx, scratch, data, log, level=0):
     fi = FakeImportlib({'pk.m': scratch.put(data)})
-    old = ssh.importlib
-    ssh.importlib = fi
-    try:
+    with at_level(level):
+        ssh = _mods()[0]
+        old = ssh.importlib
+        ssh.importlib = fi
         try:
             got = ssh.get_module_source('pk.m')
             out = 'ok ' + hexb(got)
         except (UnicodeDecodeError, ImportError, SyntaxError):
             got = None
             out = 'decodeError'
-    finally:
-        ssh.importlib = old
+        finally:
+            ssh.importlib = old
     log.add('src file=%s' % file_tok('pk.m', data), out)
     if got != data:
         tr = data.replace(b'\r\n', b'\n').replace(b'\r', b'\n')
         key = 'C18:source:newline-translated' if got == tr else 'C18:source:bytes-differ'
-        ctx.violation(key, case=dict(stream='src', data=hexb(data)),
+        ctx.violation(key, case=dict(stream='src', data=hexb(data), level=level),
                       expected='get_module_source returns the file bytes %s' % hexb(data),
                       observed='returned %s' % (hexb(got) if got is not None else 'UnicodeDecodeError'),
                       note='the remote program differs byte for byte from the client file', kind='input')
@@ -847,6 +951,7 @@ class FakeProc:
         return None
 
 
+@leveled
 def run_connect(case, scratch, dry=False, via_main=False, server_chunks=None, grants=None, stop_at=3):
     """The real ssh.connect (optionally reached through the real client._main) with the file lookup,
     zlib, Popen, the socket pair and select faked.  case: dict(files={name: bytes}, options=[(k, v)])."""
@@ -964,7 +1069,7 @@ def connect_case(ctx, rng, scratch, names, keys, log):
         files[n] = gen_source(rng, k, ctx.thorough)
         ctx.hist('source:' + k)
     opts = [(k, rand_option_value(rng)) for k in keys]
-    case = dict(files=files, options=opts)
+    case = dict(files=files, options=opts, level=next_level())
     obs = run_connect(case, scratch)
     connect_check(ctx, case, obs, log)
     return case
@@ -998,12 +1103,12 @@ def connect_check(ctx, case, obs, log):
         hexb(optdata), ','.join(file_tok(n, d) for n, d in sorted(disk.items())) or '_', script_tok(obs['zlog']))
     if obs['error']:
         log.add(line, 'error ' + obs['error'])
-        ctx.violation('C18:connect:raised-' + obs['error'], case=dict(stream='connect', files={n: hexb(d) for n, d in case['files'].items()},
+        ctx.violation('C18:connect:raised-' + obs['error'], case=dict(stream='connect', level=case.get('level', 0), files={n: hexb(d) for n, d in case['files'].items()},
                                                                       options=[[k, v] for k, v in opts]),
                       expected='upload written', observed=obs['error'], kind='input')
         return
     if len(writes) != 2:
-        ctx.violation('C18:connect:writes', case=dict(stream='connect', files={n: hexb(d) for n, d in case['files'].items()},
+        ctx.violation('C18:connect:writes', case=dict(stream='connect', level=case.get('level', 0), files={n: hexb(d) for n, d in case['files'].items()},
                                                       options=[[k, v] for k, v in opts]),
                       expected='exactly two writes (content, content2)', observed='%d writes' % len(writes), kind='input')
         return
@@ -1054,7 +1159,7 @@ def connect_check(ctx, case, obs, log):
                     problems.append(('C18:options:values-differ', opts_tok(opts),
                                      '%s (uploaded module: %s)' % (bad, opts_tok(vals))))
     for key, exp, ob in problems:
-        ctx.violation(key, case=dict(stream='connect', files={n: hexb(d) for n, d in case['files'].items()},
+        ctx.violation(key, case=dict(stream='connect', level=case.get('level', 0), files={n: hexb(d) for n, d in case['files'].items()},
                                      options=[[k, v] for k, v in opts]),
                       expected=exp, observed=ob, kind='input')
 
@@ -1072,7 +1177,7 @@ def eval_module(src):
 
 # ---------------------------------------------------------------- (c) malformed streams
 
-def malformed_case(ctx, rng, log):
+def malformed_case(ctx, rng, log, level=0):
     with open(os.path.join(common.REPO, 'sshuttle', 'assembler.py'), 'rb') as f:
         asm = f.read()
     z = zlib.compressobj(1)
@@ -1136,7 +1241,9 @@ def malformed_case(ctx, rng, log):
     stream += rng.choice([b'', b'tail'])
     if kind == 'truncate':
         stream = stream[:rng.randrange(len(asm), len(stream))]
-    r = remote_run(stream, len(asm), size_policy(rng, rng.choice(POLICIES)), rng.choice([1, 16, 8192]), set())
+    with at_level(level):
+        r = remote_run(stream, len(asm), size_policy(rng, rng.choice(POLICIES)), rng.choice([1, 16, 8192]), set(),
+                       pyscript=pyscript_at_level())
     log.add(boot_line(len(asm), [], r, stream), boot_out(r))
     log.nontrivial = True
 
@@ -1173,15 +1280,17 @@ def main_case(ctx, rng, scratch, names, keys, log):
     chunks = [stream[a:b] for a, b in zip([0] + cuts, cuts + [n])]
     grant = rng.choice([None, 0, 1, 7, 15, 100])
     files = {} if rng.random() < 0.05 else {n: b'# %d\n' % rng.randrange(100) for n in names + ['sshuttle.assembler']}
-    case = dict(files={n: hexb(d) for n, d in files.items()}, options=opts, chunks=[hexb(c) for c in chunks], grant=grant)
+    case = dict(files={n: hexb(d) for n, d in files.items()}, options=opts, chunks=[hexb(c) for c in chunks], grant=grant,
+                level=next_level())
     ev, outcome, got = run_main(case, scratch)
     main_check(ctx, case, ev, outcome, got, log)
 
 
+@leveled
 def run_main(case, scratch):
     chunks = [common.unhex(c) for c in case['chunks']]
     obs = run_connect(dict(files={n: common.unhex(d) for n, d in case.get('files', {}).items()},
-                           options=[tuple(o) for o in case['options']]), scratch,
+                           options=[tuple(o) for o in case['options']], level=case.get('level', 0)), scratch,
                       via_main=True, server_chunks=chunks, grants=[case['grant']], stop_at=3)
     return obs['events'], obs['outcome'], obs.get('got')
 
@@ -1373,6 +1482,7 @@ def session_paths(case, scratch):
     return Paths()
 
 
+@leveled
 def run_connect_win32(case, scratch, limit):
     """The win32 branch of the real ssh.connect: pipes to the child plus the real helpers.SocketRWShim
     threads.  Faked: sys.platform as ssh sees it, Popen, the file lookup, and the child's two pipe ends
@@ -1428,21 +1538,24 @@ def run_connect_win32(case, scratch, limit):
     return obs
 
 
+@leveled
 def run_session(case, scratch):
     """case: dict(files, options, transport='posix'|'win32', limit, policy, bufsize).  Real connect, the
     transport, then the real assembler on what arrived.  -> (obs, remote result or None)"""
     if case['transport'] == 'win32':
         obs = run_connect_win32(case, scratch, case.get('limit'))
     else:
-        obs = run_connect(dict(files=case['files'], options=case['options']), scratch)
+        obs = run_connect(dict(files=case['files'], options=case['options'], level=case.get('level', 0)), scratch)
         obs['stream'] = b''.join(d for k, d in obs['events'] if k == 'w')
     if obs['error']:
         return obs, None
     m = re.search(r'stdin\.read\((\d+)\)', ' '.join(obs['popen'][0])) if obs['popen'] else None
     obs['nasm'] = int(m.group(1)) if m else 0
     import random as _random
+    argv = obs['popen'][0] if obs['popen'] else []
     r = remote_run(obs['stream'], obs['nasm'], size_policy(_random.Random(case.get('size_seed', 0)), case.get('policy', 'all')),
-                   case.get('bufsize', 8192), {'sshuttle.server', 'sshuttle.cmdline_options'})
+                   case.get('bufsize', 8192), {'sshuttle.server', 'sshuttle.cmdline_options'},
+                   pyscript=argv[2] if len(argv) == 3 and argv[1] == '-c' else None)
     return obs, r
 
 
@@ -1574,7 +1687,7 @@ def session_cases(ctx, rng, scratch, names, okeys, logs):
 
     def one(opts, transport='posix', files=None):
         return dict(files=files if files is not None else tiny(), options=opts, transport=transport, limit=None,
-                    policy='all', bufsize=8192, size_seed=0)
+                    policy=rng.choice(POLICIES), bufsize=8192, size_seed=rng.randrange(1 << 30), level=next_level())
     # the same session twice, two different sessions, three sessions over both transports, real sources twice
     for _ in range(ctx.scale(2, 10)):
         a, b = distinct_options(rng, okeys), distinct_options(rng, okeys)
@@ -1617,16 +1730,18 @@ def session_cases(ctx, rng, scratch, names, okeys, logs):
                                      '~1M' if size < M1 + 5000 else '>1M'))
         session_case(ctx, dict(files=files, gen=gen, options=distinct_options(rng, okeys), transport='posix', limit=None,
                                policy=rng.choice([4096, 'all', 'rand']), bufsize=rng.choice([8192, 1 << 17]),
-                               size_seed=rng.randrange(1 << 30)), scratch, lg, seen)
+                               size_seed=rng.randrange(1 << 30), level=next_level()), scratch, lg, seen)
     sets = falsy_option_sets(rng, okeys)
     for i, opts in enumerate(sets):
         tr = 'win32' if i % 6 == 5 else 'posix'
         session_case(ctx, dict(files=files_for(True), options=opts, transport=tr, limit=rng.choice([None, 1000]),
-                               policy=rng.choice(POLICIES), bufsize=8192, size_seed=rng.randrange(1 << 30)), scratch, lg, seen)
+                               policy=rng.choice(POLICIES), bufsize=8192, size_seed=rng.randrange(1 << 30),
+                               level=next_level()), scratch, lg, seen)
     for limit in [None, 1, 1000, 4096] * ctx.scale(1, 4):
         for small in (True, False):
             session_case(ctx, dict(files=files_for(small and limit == 1), options=distinct_options(rng, okeys), transport='win32',
-                                   limit=limit, policy='all', bufsize=8192, size_seed=0), scratch, lg, seen)
+                                   limit=limit, policy=(rng.choice(POLICIES) if small and limit == 1 else rng.choice([4096, 'all'])),
+                                   bufsize=8192, size_seed=rng.randrange(1 << 30), level=next_level()), scratch, lg, seen)
     logs.append(lg)
 
 
@@ -1708,7 +1823,14 @@ class _SegSocketModule:
         return getattr(self._real, k)
 
 
-def subprocess_case(ctx, sub_seed, scratch, names, keys):
+def subprocess_case(ctx, sub_seed, scratch, names, keys, level=0):
+    """a real child interpreter runs the one-liner the real ssh.connect built at this verbosity level; the upload
+    reaches it in segments a few milliseconds apart"""
+    with at_level(level):
+        return _subprocess_case(ctx, sub_seed, scratch, names, keys, level)
+
+
+def _subprocess_case(ctx, sub_seed, scratch, names, keys, level):
     import random as _random
     rng = _random.Random(sub_seed)        # the case is a function of this seed alone (replayable)
     ssh = _mods()[0]
@@ -1778,7 +1900,7 @@ def subprocess_case(ctx, sub_seed, scratch, names, keys):
             p.kill()
     ctx.count()
     ctx.hist('subprocess')
-    case = dict(stream='subprocess', sub_seed=sub_seed,
+    case = dict(stream='subprocess', sub_seed=sub_seed, level=level,
                 files={n: hexb(d) if len(d) < 4096 else 'sha256:' + hashlib.sha256(d).hexdigest() for n, d in files.items()},
                 options=[[k, v] for k, v in opts])
     if not out.startswith(b'\0\0SSHUTTLE0001'):
@@ -1848,7 +1970,7 @@ def shrink_e2e(case, key, scratch):
             best = cand
     for i, m in enumerate(best['modules']):
         d = m[1]
-        while len(d) > 4 and m[2] == 'file':
+        while len(d) > 4 and m[2] == 'file' and m[0] != 'sshuttle.server':    # never cut the stand-in that reports
             for cut in (d[:len(d) // 2], d[len(d) // 2:]):
                 cand = dict(best, modules=[mm if j != i else [m[0], cut, m[2]] for j, mm in enumerate(best['modules'])])
                 if fails(cand):
@@ -1878,6 +2000,7 @@ def case_unjson(c):
 
 def run(ctx):
     rng = ctx.rng
+    _LEVEL['i'], _LEVEL['shift'], _LEVEL['hist'] = 0, ctx.seed, {}
     scratch = Scratch()
     logs = []
     try:
@@ -1891,10 +2014,10 @@ def run(ctx):
                  b'# -*- coding: latin-1 -*-\nNAME = "caf\xe9"\n', b'#!/bin/sh\n# coding: iso-8859-15\r\ns = "\xa4"\r\n',
                  b'\xef\xbb\xbf', b'\xef\xbb\xbf# coding: utf-8\r\nx = "\xc3\xa9"\r', b'# coding: utf-8\nx = "\xe2\x82\xac"\n']
         for d in fixed:
-            src_case(ctx, scratch, d, lg)
+            src_case(ctx, scratch, d, lg, level=next_level())
             ctx.count()
         for _ in range(ctx.scale(40, 400)):
-            src_case(ctx, scratch, gen_source(rng, rng.choice(['utf8', 'mixed', 'cr', 'crlf', 'one', 'zeros', 'latin1-coding', 'bom']), ctx.thorough)[:3000], lg)
+            src_case(ctx, scratch, gen_source(rng, rng.choice(['utf8', 'mixed', 'cr', 'crlf', 'one', 'zeros', 'latin1-coding', 'bom']), ctx.thorough)[:3000], lg, level=next_level())
             ctx.count()
         logs.append(lg)
         locale_case(ctx, scratch)
@@ -1930,7 +2053,7 @@ def run(ctx):
         # (c) malformed streams
         for _ in range(ctx.scale(60, 600)):
             lg = Log('malformed')
-            malformed_case(ctx, rng, lg)
+            malformed_case(ctx, rng, lg, level=next_level())
             logs.append(lg)
             ctx.count()
         # (d) start-up order
@@ -1950,11 +2073,13 @@ def run(ctx):
         session_cases(ctx, rng, scratch, names, okeys, logs)
         if ctx.thorough:
             for _ in range(12 * ctx.boost):
-                subprocess_case(ctx, rng.randrange(1 << 30), scratch, names, okeys)
+                subprocess_case(ctx, rng.randrange(1 << 30), scratch, names, okeys, level=next_level())
         else:
-            subprocess_case(ctx, rng.randrange(1 << 30), scratch, names, okeys)
+            subprocess_case(ctx, rng.randrange(1 << 30), scratch, names, okeys, level=next_level())
     finally:
         scratch.close()
+    for lv, n in sorted(_LEVEL.get('hist', {}).items()):
+        ctx.hist('client-verbosity:%d' % lv, n)
     for lg in logs:
         ctx.hist(lg.kind)
         ctx.mark(lg.ins, lg.nontrivial)
@@ -1973,7 +2098,7 @@ def replay(ctx, rep):
         st = case.get('stream')
         if st == 'src':
             lg = Log('src')
-            src_case(ctx, scratch, common.unhex(case['data']), lg)
+            src_case(ctx, scratch, common.unhex(case['data']), lg, level=case.get('level', 0))
             return bool(ctx.violations), 'get_module_source: %s' % lg.outs[0][:200]
         if st == 'locale':
             locale_case(ctx, scratch)
@@ -2010,7 +2135,7 @@ def replay(ctx, rep):
             bad = binding_problem(opts, kind, got)
             return bool(bad), bad or 'server.main receives ' + ','.join('%s:%s' % (p, val_tok(v)) for p, v in got)
         if st == 'subprocess':
-            subprocess_case(ctx, case['sub_seed'], scratch, packaged_names(), client_option_keys())
+            subprocess_case(ctx, case['sub_seed'], scratch, packaged_names(), client_option_keys(), level=case.get('level', 0))
             return bool(ctx.violations), '; '.join('%s: %s' % (v['key'], str(v['observed'])[:120]) for v in ctx.violations) or \
                 'the child interpreter reported the client\'s sources and options'
     finally:
